@@ -27,7 +27,7 @@ func init() {
 	core.Register(&core.Monitor{
 		ID: "C10",
 		Rule: "invalid-biased (schema text, document text) pairs (1-3 injected faults with near-miss names that have several equidistant 'did you mean' candidates, many conflicting field pairs, type-blind documents) and single-fault schema texts; " +
-			"each pair is validated k times from fresh parses (schema reloaded on alternate repeats), the already validated tree is compared with a fresh parse (validation annotates, it must not rewrite) and validated again, and the whole case list runs in 4 worker processes, each in a different order (forward, backward, two shuffles), whose per-case digests the driver compares; " +
+			"each pair is validated k times from fresh parses (schema reloaded on alternate repeats), the already validated tree is compared with a fresh parse (validation annotates, it must not rewrite) and validated again, for one pair in three an outline of the schema object (types with fields and arguments in order, possible types and implemented types of every name in order, directives, roots) is taken before and after the validation and must be the same (what a validation leaves in the schema is history for the next one), and the whole case list runs in 4 worker processes, each in a different order (forward, backward, two shuffles), whose per-case digests the driver compares; " +
 			"the canonical serialization covers rule, message, every location and the order of the list; LoadSchema errors are compared the same way. A difference on any axis is a violation. " +
 			"distinct = distinct error-list digests seen; non-trivial = cases whose error list is non-empty",
 		Assumptions: []string{
